@@ -39,8 +39,8 @@ PROPS = {
     ),
     'C03': dict(
         title='mask: exact residual signature', proj='proj_shape_errclass', oracle='c03',
-        quick=[S_('bind'), S_('mask0'), S_('maskflags_exh'), S_('maskflags', count=40000)],
-        thorough=[S_('bind'), S_('mask0'), S_('maskflags_exh'), S_('maskflags', count=600000), S_('maskp')],
+        quick=[S_('probes', nc=1, items=('mask_odd',)), S_('bind'), S_('mask0'), S_('maskflags_exh'), S_('maskflags', count=40000)],
+        thorough=[S_('probes', nc=1, items=('mask_odd',)), S_('bind'), S_('mask0'), S_('maskflags_exh'), S_('maskflags', count=600000), S_('maskp')],
         runtime_part=BINDER,
         level_text='Theorems about the Lean model of _mask/mask (all signatures, all n, all name lists, no size bound) accepted by the Lean kernel; '
                    'the model is tied to /repo on every run by an exhaustive-on-small-universes differential correspondence '
@@ -63,8 +63,8 @@ PROPS = {
     ),
     'C09': dict(
         title='merge precision and laws', proj='proj_shape_errclass', oracle='c09',
-        quick=[S_('probes', nc=1, items=('eq_defaults',)), S_('bind'), S_('apply'), S_('merge_laws'), S_('merge_pairs'), S_('merge_roles', count=20000), S_('meta_rand', count=20000)],
-        thorough=[S_('probes', nc=1, items=('eq_defaults',)), S_('bind'), S_('apply'), S_('merge_laws'), S_('merge_pairs'), S_('merge_pairs_stars'), S_('merge_roles', count=300000), S_('meta_rand', count=200000)],
+        quick=[S_('probes', nc=1, items=('eq_defaults', 'laws_codeless')), S_('bind'), S_('apply'), S_('merge_laws'), S_('merge_pairs'), S_('merge_roles', count=20000), S_('meta_rand', count=20000)],
+        thorough=[S_('probes', nc=1, items=('eq_defaults', 'laws_codeless')), S_('bind'), S_('apply'), S_('merge_laws'), S_('merge_pairs'), S_('merge_pairs_stars'), S_('merge_roles', count=300000), S_('meta_rand', count=200000)],
         runtime_part=BINDER,
         level_text='Identity, idempotence, neutral-element, round-trip and fold laws are theorems about the Lean model; exactness on aligned inputs is '
                    'checked by the oracle on all aligned pairs of the universe and sampled aligned tuples while its proof is in progress.',
@@ -84,9 +84,9 @@ PROPS = {
     ),
     'C15': dict(
         title='error discipline', proj='proj_err', oracle='c15',
-        quick=[S_('programs', count=2000, oracle='c05', proj='proj_full'), S_('probes_c15', nc=1, oracle='c05', proj='proj_full'), S_('homonym_rand', count=20000), S_('merge_pairs'), S_('merge_rand', count=20000), S_('embed_small'), S_('embed_rand', count=20000),
+        quick=[S_('probes', nc=1, items=('depths_key',)), S_('programs', count=2000, oracle='c05', proj='proj_full'), S_('probes_c15', nc=1, oracle='c05', proj='proj_full'), S_('homonym_rand', count=20000), S_('merge_pairs'), S_('merge_rand', count=20000), S_('embed_small'), S_('embed_rand', count=20000),
                S_('forwards_rand', count=30000), S_('maskflags_exh'), S_('maskflags', count=40000), S_('meta_rand', count=20000)],
-        thorough=[S_('programs', count=30000, oracle='c05', proj='proj_full'), S_('probes_c15', nc=1, oracle='c05', proj='proj_full'), S_('homonym_rand', count=300000), S_('merge_pairs'), S_('merge_pairs_stars'), S_('merge_rand', count=300000), S_('embed_small'),
+        thorough=[S_('probes', nc=1, items=('depths_key',)), S_('programs', count=30000, oracle='c05', proj='proj_full'), S_('probes_c15', nc=1, oracle='c05', proj='proj_full'), S_('homonym_rand', count=300000), S_('merge_pairs'), S_('merge_pairs_stars'), S_('merge_rand', count=300000), S_('embed_small'),
                   S_('embed_pairs', nc=64), S_('embed_rand', count=300000), S_('forwards_rand', count=300000),
                   S_('maskflags_exh'), S_('maskflags', count=300000), S_('mask0'), S_('meta_rand', count=200000)],
         runtime_part=CTOR,
@@ -97,8 +97,8 @@ PROPS = {
     ),
     'C04': dict(
         title='declared forwarding', proj='proj_full', oracle='c04',
-        quick=[S_('bind'), S_('forwards_exh', nc=32), S_('forwards_rand', count=30000), S_('declfwd', count=800), S_('probes_c04', nc=1)],
-        thorough=[S_('bind'), S_('forwards_exh', nc=32), S_('forwards_rand', count=400000), S_('declfwd', count=20000), S_('probes_c04', nc=1)],
+        quick=[S_('bind'), S_('forwards_exh', nc=32), S_('forwards_rand', count=30000), S_('declfwd', count=800), S_('probes_c04', nc=1), S_('probes', nc=1, items=('receiver_names_c04',))],
+        thorough=[S_('bind'), S_('forwards_exh', nc=32), S_('forwards_rand', count=400000), S_('declfwd', count=20000), S_('probes_c04', nc=1), S_('probes', nc=1, items=('receiver_names_c04',))],
         runtime_part='the forger protocol (set_signature_forger, forwards_to_method attribute walking, forwards_to_super, emulate) and execution of real wrappers',
         level_text='forwards = embed . mask is definitional in the Lean model and its soundness follows from the embed and mask theorems; the '
                    'correspondence compares real forwards with the model AND with real embed(outer, mask(inner)) in parameters and provenance; '
@@ -107,8 +107,8 @@ PROPS = {
     ),
     'C12': dict(
         title='modifiers', proj='proj_full', oracle='c12',
-        quick=[S_('probes', nc=1, items=('odd_defaults_c12', 'hint_history', 'pok_receiver')), S_('bindcall'), S_('pok'), S_('pokm'), S_('pokmforms'), S_('pokstacked'), S_('poknames'), S_('modorder', oracle='c18'), S_('lateattr', nc=1, oracle='c18')],
-        thorough=[S_('probes', nc=1, items=('odd_defaults_c12', 'hint_history', 'pok_receiver')), S_('bindcall'), S_('pok', nc=64), S_('pokm'), S_('pokmforms'), S_('pokstacked'), S_('poknames'), S_('modorder', oracle='c18'), S_('lateattr', nc=1, oracle='c18')],
+        quick=[S_('probes', nc=1, items=('odd_defaults_c12', 'hint_history', 'pok_receiver', 'pok_forms_direct')), S_('bindcall'), S_('pok'), S_('pokm'), S_('pokmforms'), S_('pokstacked'), S_('poknames'), S_('modorder', oracle='c18'), S_('lateattr', nc=1, oracle='c18')],
+        thorough=[S_('probes', nc=1, items=('odd_defaults_c12', 'hint_history', 'pok_receiver', 'pok_forms_direct')), S_('bindcall'), S_('pok', nc=64), S_('pokm'), S_('pokmforms'), S_('pokstacked'), S_('poknames'), S_('modorder', oracle='c18'), S_('lateattr', nc=1, oracle='c18')],
         runtime_part='descriptor binding of the translator object, functools.update_wrapper',
         level_text='prepare (advertised signature, admissibility) and the call translation are modelled branch by branch; exactness of the translated call '
                    'w.r.t. a native function of the advertised signature is a theorem over a value-level model of CPython binding. Correspondence: every '
@@ -117,8 +117,8 @@ PROPS = {
     ),
     'C19': dict(
         title='functools.partial', proj='proj_full', oracle='c19',
-        quick=[S_('probes', nc=1, items=('nested_partial',)), S_('bind'), S_('partial'), S_('maskp'), S_('partialfwd', count=2200), S_('programs', count=16000, routes=('param',), ops=('pauto',))],
-        thorough=[S_('probes', nc=1, items=('nested_partial',)), S_('bind'), S_('partial'), S_('maskp'), S_('partialfwd', count=8000), S_('programs', count=160000, routes=('param',), ops=('pauto',))],
+        quick=[S_('probes', nc=1, items=('nested_partial', 'partial_odd')), S_('bind'), S_('partial'), S_('maskp'), S_('partialfwd', count=2200), S_('programs', count=16000, routes=('param',), ops=('pauto',))],
+        thorough=[S_('probes', nc=1, items=('nested_partial', 'partial_odd')), S_('bind'), S_('partial'), S_('maskp'), S_('partialfwd', count=8000), S_('programs', count=160000, routes=('param',), ops=('pauto',))],
         runtime_part='functools.partial.__call__ (the oracle really calls the partial objects)',
         level_text='signature(partial) is _mask in partial mode: exactness w.r.t. "f accepts the bound plus the call arguments" is a theorem about the Lean '
                    'model; correspondence on real functools.partial objects of real functions (parameters, provenance, depths), plain and automatic retrieval.',
@@ -126,8 +126,8 @@ PROPS = {
     ),
     'C20': dict(
         title='support helpers', proj='proj_full', oracle='c20',
-        quick=[S_('probes', nc=1, items=('odd_defaults_c20',)), S_('bindcall'), S_('callsig'), S_('makeup'), S_('readsig'), S_('resplit'), S_('readsigtext')],
-        thorough=[S_('probes', nc=1, items=('odd_defaults_c20',)), S_('bindcall'), S_('callsig'), S_('makeup'), S_('readsig', count=60000), S_('resplit', count=200000), S_('readsigtext', count=100000)],
+        quick=[S_('probes', nc=1, items=('odd_defaults_c20', 'support_text_odd')), S_('bindcall'), S_('callsig'), S_('makeup'), S_('readsig'), S_('resplit'), S_('readsigtext')],
+        thorough=[S_('probes', nc=1, items=('odd_defaults_c20', 'support_text_odd')), S_('bindcall'), S_('callsig'), S_('makeup'), S_('readsig', count=60000), S_('resplit', count=200000), S_('readsigtext', count=100000)],
         runtime_part='Python\'s re and str.split (modelled character by character in Model/ReadSigText.lean and compared by stream resplit), str(Signature), CPython compiling the generated def (modelled by parseDef), exec in s/f/func_from_sig (stream readsig: read_sig and s() vs the model on every signature of the universe x 8 option combinations, the chevron spelling and random piece lists; round trips eager and postponed)',
         level_text='bind_callsig = CPython binding (outside the version-dependent case), sort_callsigs partition and make_up_callsigs completeness are theorems '
                    'about the Lean model; so is the string layer after the comma split (Model/ReadSig.lean): for every signature, s(str(sig)) reproduces it in the native spelling, and for every signature without positional-only parameters in all eight modifiers-based spellings up to the order of keyword-only parameters (theorems s_native, s_no_kwoargs, s_kwoargs, s_annotate_kwoargs, read_sig_kwoargs); the comma split and the regular expression are modelled on characters too (theorem read_sig_text_parts: on well-formed texts they give back exactly the tokens); and so is the step from the groups to pieces (theorem read_sig_text: read_sig from the text = read_sig on the pieces; stream readsigtext compares the whole of read_sig from the text); exec / compile are exercised by the correspondence only (partial).',
@@ -135,8 +135,8 @@ PROPS = {
     ),
     'C14': dict(
         title='drop-in inspect objects', proj='proj_full', oracle='c14',
-        quick=[S_('probes', nc=1, items=('copy_eq',)), S_('eq'), S_('sigcmp')],
-        thorough=[S_('probes', nc=1, items=('copy_eq',)), S_('eq'), S_('sigcmp')],
+        quick=[S_('probes', nc=1, items=('copy_eq', 'bind_receiver')), S_('eq'), S_('sigcmp')],
+        thorough=[S_('probes', nc=1, items=('copy_eq', 'bind_receiver')), S_('eq'), S_('sigcmp')],
         runtime_part='inherited str()/bind()/bind_partial() (compared with a plain inspect.Signature over the universe x call shapes), attribute storage of replace()',
         level_text='The ==/!=/hash protocol (reflected operand first, NotImplemented fall-backs) of upgraded vs plain objects is modelled and its laws (total, reflexive, '
                    'symmetric, consistent with hash, hashable like the plain counterpart) are theorems; the model is compared with real ==, != and hash over a menagerie; '
@@ -218,8 +218,8 @@ PROPS = {
     ),
     'C13': dict(
         title='wrappers are call-transparent', proj='proj_full', oracle='c13',
-        quick=[S_('probes', nc=1, items=('c13_r8',)), S_('wrap', count=640), S_('probes', nc=1, items=('owner_binding',)), S_('wlist', nc=4)],
-        thorough=[S_('probes', nc=1, items=('c13_r8',)), S_('wrap', count=12000), S_('probes', nc=1, items=('owner_binding',)), S_('wlist', nc=4)],
+        quick=[S_('probes', nc=1, items=('c13_r8', 'receiver_names_c13', 'wrap_named_star')), S_('wrap', count=640), S_('probes', nc=1, items=('owner_binding',)), S_('wlist', nc=4)],
+        thorough=[S_('probes', nc=1, items=('c13_r8', 'receiver_names_c13', 'wrap_named_star')), S_('wrap', count=12000), S_('probes', nc=1, items=('owner_binding',)), S_('wlist', nc=4)],
         runtime_part='functools.partial / descriptor call path: call transparency is definitional in any model and is validated on the real objects, not proved',
         level_text='Introspection side as theorems: wrappers() order for any stack depth, each stack level is a forwards (hence sound by C04), the Combination signature is sound for consistently named '
                    'functions (instance of the n-ary merge soundness theorem). Real side: decorator / wrapper_decorator stacks of depth 1-3 as function / method / staticmethod and Combinations of 1-3 '
